@@ -337,8 +337,12 @@ func (in *Interp) visitInstr(fr *frame, instr ssa.Instruction) continuation {
 		if l < 0 || c < l {
 			in.rtPanic("makeslice: len out of range")
 		}
-		if c > 1<<22 {
-			unsup("make of %d elements", c)
+		_ = hugeSlicePhys
+		if c > 1<<47 {
+			in.rtPanic("makeslice: len out of range")
+		}
+		if c > hugeSlicePhys {
+			in.ex.stats.Stubs["huge allocation modelled lazily (memory exhaustion is outside the model)"] = true
 		}
 		fr.env[instr] = newSlice(l, c, instr.Type().Underlying().(*types.Slice).Elem())
 	case *ssa.MakeMap:
